@@ -104,7 +104,12 @@ HANDLERS = {
     "array_get": h_generic("array_get.c"),
     "copy_negint": h_generic("copy_negint.c"),
     "tag_readonly": h_generic("tag_readonly.c"),
+    # decode layer: the failed obligation is about one abstract transition; the replay SEARCHES for a concrete failing
+    # input of cbor_load on the real code against an RFC 8949 reference (replay/load_oracle.c), inputs or not
+    "load_oracle": lambda inputs, proof: run_native("load_oracle.c", [], timeout=300),
 }
+# handlers that do not need an input assignment from the verifier
+SWEEP_HANDLERS = {"load_oracle"}
 
 
 def write_replay(pid, proof, r, obs):
@@ -129,7 +134,7 @@ def write_replay(pid, proof, r, obs):
         info["native_replay_handler"] = handler
         info["proof_defines"] = proof.get("defines", [])
         for ob in obs:
-            if not ob.get("inputs"):
+            if not ob.get("inputs") and handler not in SWEEP_HANDLERS:
                 continue
             try:
                 nat = HANDLERS[handler](ob["inputs"], proof)
@@ -140,7 +145,13 @@ def write_replay(pid, proof, r, obs):
             if nat.get("reproduced"):
                 info["reproduced_on_real_code"] = True
                 info["counterexample_inputs"] = ob["inputs"]
+                if handler in SWEEP_HANDLERS:
+                    info["failing_input_found_by"] = ("native sweep of the real code against the RFC 8949 reference "
+                                                      "(replay/load_oracle.c); the failing input is in the output below, it "
+                                                      "is not derived from the verifier's trace")
                 break
+            if handler in SWEEP_HANDLERS:
+                break   # one sweep per replay file
         if not info["native_replays"]:
             info["native_replay"] = "handler %s registered but the verifier gave no usable input assignment" % handler
     else:
@@ -154,8 +165,8 @@ def replay_file(path):
     info = json.load(open(path))
     print(json.dumps({k: info[k] for k in ("property", "proof", "failed_obligation", "description")}, indent=1))
     h = info.get("native_replay_handler")
-    if h and info.get("counterexample_inputs"):
-        nat = HANDLERS[h](info["counterexample_inputs"], dict(defines=info.get("proof_defines", [])))
+    if h and (info.get("counterexample_inputs") or h in SWEEP_HANDLERS):
+        nat = HANDLERS[h](info.get("counterexample_inputs") or {}, dict(defines=info.get("proof_defines", [])))
         print(nat.get("output", ""))
         print("reproduced_on_real_code:", nat.get("reproduced"))
         return 1 if nat.get("reproduced") else 0
